@@ -748,23 +748,24 @@ type c20PutRec struct {
 // c20Tr translates the raw datastore calls of the live keystore into events of
 // Model/ResetKeystore.v and keeps the oracle's ghost state.
 type c20Tr struct {
-	store     *c20Store
-	pb        int
-	byDsKey   map[string]int // slot-relative datastore key -> pool id
-	pool      []c20Key
-	events    []string
-	phase     string // idle starting filling clean1 clean2 tearing
-	counted   bool
-	active    int
-	hasKeys   []int
-	batchOpen bool
-	closing   bool
-	closed    bool
-	puts      []*c20PutRec
-	syncOrd   []int
-	skip      string // non-empty: the run left the modelled fragment (reason)
-	snaps     []c20Ghost
-	branches  map[string]bool
+	store         *c20Store
+	pb            int
+	byDsKey       map[string]int // slot-relative datastore key -> pool id
+	pool          []c20Key
+	events        []string
+	phase         string // idle starting filling clean1 clean2 tearing
+	counted       bool
+	active        int
+	hasKeys       []int
+	batchOpen     bool
+	closing       bool
+	closed        bool
+	puts          []*c20PutRec
+	syncOrd       []int
+	skip          string // non-empty: the run left the modelled fragment (reason)
+	snaps         []c20Ghost
+	branches      map[string]bool
+	cancelInStart bool
 }
 
 func (tr *c20Tr) emit(e string)    { tr.events = append(tr.events, e) }
@@ -935,6 +936,17 @@ func (tr *c20Tr) onReset(ev c20Raw) {
 		return
 	}
 	switch tr.phase {
+	case "wedged":
+	case "orphan":
+		switch {
+		case ev.failed:
+			tr.skip = "fault in opStart"
+		case ev.kind == "commit" && tr.isDelBatch(ev.ops):
+			tr.emit(tr.coqDel(ev.ops))
+		case ev.kind == "sync":
+			tr.emit("EStartDone")
+			tr.phase = "wedged"
+		}
 	case "starting":
 		switch {
 		case ev.failed:
@@ -1038,8 +1050,15 @@ func (tr *c20Tr) resetDone() {
 	case "tearing":
 		tr.finish()
 	case "starting":
-		tr.emit("EStartFail")
-		tr.phase = "idle"
+		if tr.cancelInStart {
+			// ResetCids gave up waiting for opStart: the worker is still inside it
+			tr.emit("EStartCancel")
+			tr.phase = "orphan"
+			tr.branches["cancel-during-opstart"] = true
+		} else {
+			tr.emit("EStartFail")
+			tr.phase = "idle"
+		}
 	case "filling":
 		if !tr.closed {
 			tr.skip = "ResetCids returned in phase filling without Close"
@@ -1077,6 +1096,7 @@ type c20ResetOut struct {
 		size int
 	}
 	skip     string
+	wedged   bool
 	fails    []string // oracle failures
 	failKind string   // "", "size-only", "content"
 	branches map[string]bool
@@ -1128,6 +1148,9 @@ func c20RunReset(t *testing.T, r *vfRand, pool []c20Key, ids map[string]int, cfg
 			return
 		}
 		if e := recover(); e != nil {
+			if out.wedged { // the bubble cannot end: the worker never exits
+				return
+			}
 			out.fails = append(out.fails, fmt.Sprint("panic or deadlock: ", e))
 			out.failKind = "content"
 		}
@@ -1244,6 +1267,7 @@ func c20RunReset(t *testing.T, r *vfRand, pool []c20Key, ids map[string]int, cfg
 			<-put(ks).done
 		}
 
+		var allPending []*c20PutRec
 		reset := func(nw []c20Key, gated bool) error {
 			ctx0, cancel := context.WithCancel(context.WithValue(bg, c20ActorKey{}, c20Actor{kind: "reset"}))
 			defer cancel()
@@ -1277,6 +1301,11 @@ func c20RunReset(t *testing.T, r *vfRand, pool []c20Key, ids map[string]int, cfg
 					return
 				}
 				if opp == cfg.cancelAt {
+					store.mu.Lock()
+					if tr.phase == "starting" {
+						tr.cancelInStart = true
+					}
+					store.mu.Unlock()
 					cancel()
 					out.branches["cancel"] = true
 				}
@@ -1322,18 +1351,32 @@ func c20RunReset(t *testing.T, r *vfRand, pool []c20Key, ids map[string]int, cfg
 					break
 				}
 				store.mu.Lock()
+				keyAt := len(tr.events)
 				tr.emit("EKey")
 				store.mu.Unlock()
 				sent := false
-				select {
-				case ch <- cid.NewCidV1(cid.Raw, nw[i].h):
-					sent = true
-				case rerr = <-done:
-					finished = true
+				for tries := 0; !sent && !finished; tries++ {
+					select {
+					case ch <- cid.NewCidV1(cid.Raw, nw[i].h):
+						sent = true
+					case rerr = <-done:
+						finished = true
+					default:
+						// ResetCids is not waiting for a key: it is parked at a gate or on its way out
+						if tries > 10000 {
+							panic("c20: ResetCids neither receives a key nor returns")
+						}
+						synctest.Wait()
+						if isParked() {
+							opportunity()
+							doRelease()
+							synctest.Wait()
+						}
+					}
 				}
 				if !sent {
 					store.mu.Lock()
-					tr.events = tr.events[:len(tr.events)-1]
+					tr.events = append(tr.events[:keyAt:keyAt], tr.events[keyAt+1:]...)
 					store.mu.Unlock()
 					break
 				}
@@ -1358,9 +1401,7 @@ func c20RunReset(t *testing.T, r *vfRand, pool []c20Key, ids map[string]int, cfg
 			if closeDone != nil {
 				<-closeDone
 			}
-			for _, p := range pending {
-				<-p.done
-			}
+			allPending = append(allPending, pending...)
 			store.mu.Lock()
 			tr.resetDone()
 			store.mu.Unlock()
@@ -1384,10 +1425,34 @@ func c20RunReset(t *testing.T, r *vfRand, pool []c20Key, ids map[string]int, cfg
 		store.fail = nil
 		store.mu.Unlock()
 
-		if !tr.closed && cfg.postPut != nil {
+		for isParked() { // a call still parked although ResetCids has returned
+			doRelease()
+			synctest.Wait()
+		}
+		// liveness probe: does the worker still answer?
+		wedged := false
+		if !tr.closed {
+			probe := make(chan struct{})
+			go func() { rks.Size(bg); close(probe) }()
+			synctest.Wait()
+			select {
+			case <-probe:
+			default:
+				wedged = true
+				out.wedged = true
+				out.fails = append(out.fails, "the worker goroutine is blocked forever: Size() does not return after ResetCids returned "+out.resetErr)
+				out.failKind = "wedged"
+			}
+		}
+		if !wedged {
+			for _, p := range allPending {
+				<-p.done
+			}
+		}
+		if !tr.closed && !wedged && cfg.postPut != nil {
 			<-put(cfg.postPut).done
 		}
-		if !tr.closed {
+		if !tr.closed && !wedged {
 			sz, err1 := rks.Size(bg)
 			got, err2 := rks.Get(bg, "")
 			if err1 != nil || err2 != nil {
@@ -1476,7 +1541,9 @@ func c20RunReset(t *testing.T, r *vfRand, pool []c20Key, ids map[string]int, cfg
 			}
 		}
 		out.events = tr.events
-		if !tr.closed && !cfg.finalClose {
+		out.skip = tr.skip
+		out.jlen = len(journal)
+		if !tr.closed && !cfg.finalClose && !wedged {
 			store.mu.Lock()
 			store.raw = nil
 			store.mu.Unlock()
@@ -1590,6 +1657,9 @@ func c20ResetCase(t *testing.T, cs *vfCases, r *vfRand, i int, seed uint64) {
 	out := c20RunReset(t, r, pool, ids, cfg)
 	if out.branches["fault-marker-put"] {
 		cfg.hazard = "marker-put-fail"
+	}
+	if out.wedged {
+		cfg.hazard = "cancel-during-opstart"
 	}
 	var sigs []string
 	for s := range out.branches {
